@@ -235,11 +235,65 @@ def _wf_bam(x):
             Forall(lambda i: Implies(in_range(i, x.n), And(0 <= x.es(i), x.es(i) <= x.ee(i), x.ee(i) <= x.N)), triggers=[x.ee], name="WF.records'")]
 
 
-def _setup_bmc(ctx):
+def _LE(D, p, nb, signed):
+    v = z3.IntVal(0)
+    for b in range(nb):
+        v = v + I(D(p + b)) * (256 ** b)
+    return z3.If(v >= 2 ** (8 * nb - 1), v - 2 ** (8 * nb), v) if signed else v
+
+
+def _bam_offsets(D, start):
+    """the four memoised offset tables as functions of the bytes and the record starts (proved for the real properties in C16)"""
+    name = lambda i: I(start(i)) + 36
+    cigar = lambda i: name(i) + I(D(I(start(i)) + 12))
+    seq = lambda i: cigar(i) + 4 * _LE(D, I(start(i)) + 16, 2, False)
+    qual = lambda i: seq(i) + M._divmod_noassert(_LE(D, I(start(i)) + 20, 4, True) + 1, 2)[0]
+    return {"_read_name_start": name, "_cigar_start": cigar, "_sequence_start": seq, "_quality_start": qual}
+
+
+def _setup_bmc(ctx, memo=False):
     st = St()
     st.x = _bam_extractor(False)
     st.selfv, st.args = st.x.obj, []
+    if memo:
+        # fields were read before: the instance holds the four offset tables (and the sequence lengths) of the layout BEFORE compaction
+        for k, f in _bam_offsets(st.x.D, st.x.es).items():
+            st.x.obj.set(_memo_key(k), SArr.fresh(st.x.n, (lambda f: lambda i: f(I(i)))(f)))
+        st.x.obj.set(_memo_key("_get_sequence_length"), SArr.fresh(st.x.n, lambda i: _LE(st.x.D, st.x.es(I(i)) + 20, 4, True)))
     return st
+
+
+def _memo_key(name):
+    """where the running class keeps the memoised value: the instance dict (functools.cached_property), or the never-invalidated
+    per-receiver lru_cache (bionumpy.util.cached_property / @lru_cache methods), carried by the engine as a ghost attribute"""
+    import inspect, functools
+    from pyvc.interp import LRU_GHOST
+    raw = inspect.getattr_static(_X(), name)
+    if isinstance(raw, functools.cached_property):
+        return name
+    if isinstance(raw, property):
+        return LRU_GHOST + name
+    return LRU_GHOST + name + "()"
+
+
+def _ens_memo(ctx, st, ret):
+    """Ghost invariant of the memoised offsets: an offset table held by the instance is the offset function of the CURRENT
+    (_data, _new_lines).  cached_property establishes it (C16 offset contracts); compaction must keep it - by dropping the
+    tables or by re-basing them."""
+    x, o = st.x, st.x.obj
+    data, ns = o.get("_data"), o.get("_new_lines")
+    now = _bam_offsets(lambda p: data.at(p), lambda i: ns.at(i))
+    now["_get_sequence_length"] = lambda i: _LE(lambda p: data.at(p), I(ns.at(i)) + 20, 4, True)
+    out = []
+    for k, f in now.items():
+        if not o.has(_memo_key(k)):
+            out.append(("memo.%s: not held, or the offsets of the compacted layout" % k, True))
+        else:
+            v = o.get(_memo_key(k))
+            out.append(("memo.%s.length" % k, v.length == x.n))
+            out.append(("memo.%s: not held, or the offsets of the compacted layout" % k,
+                        Forall((lambda v, f: lambda i: Implies(in_range(i, x.n), I(v.at(i)) == f(i)))(v, f))))
+    return out
 
 
 def _ens_bmc(ctx, st, ret):
@@ -269,6 +323,16 @@ bam_make_contiguous = Contract("C04.BamBufferExtractor._make_contigous", target=
                                          ("rows taken from the record ends", "RaggedView2(self._new_lines, lens)", "RaggedView2(self._ends, lens)")])
 
 
+bam_make_contiguous_memo = Contract("C04.BamBufferExtractor._make_contigous[after field reads]", target=lambda: _X()._make_contigous,
+                                    setup=lambda ctx: _setup_bmc(ctx, memo=True),
+                                    requires=lambda ctx, st: _wf_bam(st.x) + [Forall(lambda i: Implies(in_range(i, st.x.n), st.x.ee(i) - st.x.es(i) >= 36), triggers=[st.x.es],
+                                                                                     name="every record holds its 36 fixed bytes")],
+                                    ensures=lambda ctx, st, ret: _ens_bmc(ctx, st, ret) + _ens_memo(ctx, st, ret),
+                                    hints=_hints_bmc,
+                                    canaries=[("memoised offsets of the old layout kept", "self.__dict__.pop(name, None)", "self.__dict__.get(name, None)"),
+                                              ("one table forgotten", "'_cigar_start', '_sequence_start'", "'_cigar_start_', '_sequence_start'")])
+
+
 def _setup_bgi(ctx):
     st = St()
     st.x = _bam_extractor(True)
@@ -296,4 +360,4 @@ bam_getitem = Contract("C04.BamBufferExtractor.__getitem__[index array]", target
                        canaries=[("ends not selected", "self._ends[item]", "self._ends"),
                                  ("claims contiguous", "is_contigous=False", "is_contigous=True")])
 
-CONTRACTS = [make_contiguous, getitem, fields_by_range, cat2, cat3, bam_make_contiguous, bam_getitem]
+CONTRACTS = [make_contiguous, getitem, fields_by_range, cat2, cat3, bam_make_contiguous, bam_make_contiguous_memo, bam_getitem]
